@@ -363,6 +363,17 @@ def run_property(prop_id, tier, seed):
         except Exception:
             errors.append(traceback.format_exc())
 
+    # 4b. coverage-guided campaign (atheris), for the properties that declare one
+    fuzz_cfg = getattr(mod, "FUZZ", {}).get(tier)
+    fuzz_report = None
+    if fuzz_cfg:
+        try:
+            fuzz_report, rec = fuzz_campaign(prop_id, seed, fuzz_cfg, stats)
+            if rec:
+                violations.append(rec)
+        except HarnessError as exc:
+            errors.append(str(exc))
+
     # 5. bucket violations: smallest case per clause -------------------------
     buckets = {}
     for rec in violations:
@@ -419,6 +430,7 @@ def run_property(prop_id, tier, seed):
             "replayed_witnesses": n_replays,
             "time_budget_hit": stats.timeouts > 0,
             "oracle_selfcheck": getattr(mod, "SELFCHECK", None),
+            "coverage_guided": fuzz_report,
         },
         "assumptions": getattr(mod, "ASSUMPTIONS", []),
         "wall_s": round(wall, 2),
@@ -448,6 +460,38 @@ def run_property(prop_id, tier, seed):
         print("INCONCLUSIVE: time budget exhausted before the minimum case count", file=sys.stderr)
         return 2
     return 0
+
+
+def fuzz_campaign(prop_id, seed, cfg, stats):
+    """Run harness.fuzz in a fresh interpreter (atheris/libFuzzer, package instrumented for
+    coverage).  cfg: {"runs": N, "max_time": seconds}.  Returns (report dict, fail record or None)."""
+    import subprocess
+    import tempfile
+
+    with tempfile.TemporaryDirectory(prefix="verif-fuzz-") as tmp:
+        corpus = os.path.join(tmp, "corpus")
+        os.makedirs(corpus)
+        # a few deterministic pseudo-random seeds next to the (implicit) empty input
+        for i in range(8):
+            blob = b"".join(hashlib.sha256(f"{prop_id}-{seed}-{i}-{j}".encode()).digest() for j in range(8 * (1 + i)))
+            with open(os.path.join(corpus, f"seed{i}"), "wb") as fh:
+                fh.write(blob)
+        result = os.path.join(tmp, "result.json")
+        cmd = [sys.executable, "-m", "harness.fuzz", prop_id, result, f"-runs={cfg['runs']}", "-max_len=4096",
+               f"-seed={seed}", f"-max_total_time={cfg.get('max_time', 600)}", f"-artifact_prefix={tmp}/", corpus]
+        proc = subprocess.run(cmd, cwd=ROOT, capture_output=True, text=True)
+        if not os.path.exists(result):
+            raise HarnessError("fuzz campaign produced no result: " + proc.stderr[-1500:])
+        with open(result) as fh:
+            rep = json.load(fh)
+    if rep["execs"] == 0:
+        raise HarnessError("fuzz campaign did not execute: " + proc.stderr[-1500:])
+    stats.evaluations += rep["valid_cases"]
+    stats.classes["fuzz_execs"] += rep["execs"]
+    fail = rep.pop("fail")
+    rep.pop("samples", None)
+    rep["engine"] = "atheris/libFuzzer, superrec2 instrumented, bytes decoded by harness/fdp.py"
+    return rep, fail
 
 
 def _short(obj, n=300):
